@@ -10,7 +10,7 @@ computes the expected outcome of every delivery from provenance alone and compar
 from . import okv, proto
 
 LEVEL = "exploration"
-RULE = ("per suite and world (identity mode in {default, client-only explicit, server-only explicit, both explicit}, "
+RULE = ("per suite and world (identity mode in {default, client-only explicit, server-only explicit, both explicit, empty strings}, plus requests altered in transit and responses spliced from two sessions; "
         "credential ids short / sharing a 70-byte prefix / sharing a suffix, context on/off): 5 records, 4 client "
         "sessions, 60 server sessions, 240 response deliveries, every produced finalization + 3 junk strings to every "
         "server session; the routing cube is exhaustive per world, the call order is a seeded random linear extension; "
@@ -40,7 +40,7 @@ def jobs(tier, seed):
 def run_world(s, su, seed, wi, stats, viol, samples, mon_check=None):
     rnd = proto.pyrng("c07", su, seed, wi)
     sz = s.sz
-    mode = ["default", "client-only", "server-only", "both"][wi % 4]
+    mode = ["default", "client-only", "server-only", "both", "empty-both", "empty-server"][wi % 6]
     credstyle = ["short", "long-prefix", "suffix"][(wi // 4 + wi) % 3]
     ctx = None if (wi // 2) % 2 == 0 else b"ctx-%d" % wi
     names = ["A", "B", "C"]
@@ -50,8 +50,8 @@ def run_world(s, su, seed, wi, stats, viol, samples, mon_check=None):
         cred = {n: b"P" * 70 + n.encode() for n in names}
     else:
         cred = {n: n.encode() + b"@example.com/" + b"s" * 40 for n in names}
-    idu = {n: (b"user:" + n.encode() if mode in ("client-only", "both") else None) for n in names}
-    ids = b"the-server" if mode in ("server-only", "both") else None
+    idu = {n: (b"user:" + n.encode() if mode in ("client-only", "both") else (b"" if mode == "empty-both" else None)) for n in names}
+    ids = b"the-server" if mode in ("server-only", "both") else (b"" if mode in ("empty-both", "empty-server") else None)
     pwA, pwB = b"password-A-%d" % wi, b"password-B-%d" % wi
     pws = {"A": pwA, "B": pwB, "C": pwA}
     rng = s.rng("shared", proto.H("c07", su, seed, wi))
@@ -183,6 +183,46 @@ def run_world(s, su, seed, wi, stats, viol, samples, mon_check=None):
             stats["client_accepts"] += 1
         if len(samples) < 2 and cross and not got:
             samples.append(dict(case, outcome=r.err, first_ops_of_schedule=order_sig))
+    # ---- the adversary also edits messages in transit: a request with one bit of its nonce flipped, and a response spliced
+    # from two server sessions that answered the same request. Neither is a message any session produced.
+    for c in ("c1", "c3"):
+        claimed, pw = clients[c]
+        rec = records[claimed]
+        q = bytearray(bytes.fromhex(state["creq"][c]))
+        q[sz.noe + 5] ^= 0x10
+        d = s.de("creq", bytes(q), out="tq")
+        r1 = s.cmd("slogin_start", rng=rng, setup="S", file=rec["h"], req="tq", cred=cred[claimed], ctx=ctx, id_u=idu[claimed], id_s=ids, out_state="tsl", out_msg="tcr")
+        ev += 2
+        if d.ok and r1.ok:
+            r2 = s.cmd("clogin_finish", state=c + ".cl", pw=pw, resp="tcr", ctx=ctx, id_u=idu[claimed], id_s=ids, out="tcf")
+            ev += 1
+            stats["tampered_deliveries"] = stats.get("tampered_deliveries", 0) + 1
+            if r2.ok:
+                viol.append({"sig": "C07 client completed on the answer to a request that was altered in transit",
+                             "what": "%s world %d (%s, ctx %s): client %s accepted a response generated for its request with one nonce bit flipped" % (su, wi, mode, proto.short(ctx), c)})
+                s.de("cfin", bytes.fromhex(r2.msg), out="tf")
+                r3 = s.cmd("slogin_finish", state="tsl", fin="tf")
+                if r3.ok:
+                    viol.append({"sig": "C07 server completed a session whose request was altered in transit", "what": "%s world %d (%s)" % (su, wi, mode)})
+        # two answers of the server to the same (request, record, credential id): splice them
+        ra = s.cmd("slogin_start", rng=rng, setup="S", file=rec["h"], req=c + ".cq", cred=cred[claimed], ctx=ctx, id_u=idu[claimed], id_s=ids, out_state="sa", out_msg="ma")
+        rb = s.cmd("slogin_start", rng=rng, setup="S", file=rec["h"], req=c + ".cq", cred=cred[claimed], ctx=ctx, id_u=idu[claimed], id_s=ids, out_state="sb", out_msg="mb")
+        ev += 2
+        if ra.ok and rb.ok:
+            A_, B_ = bytes.fromhex(ra.msg), bytes.fromhex(rb.msg)
+            cut = sz.noe + 32 + sz.masked
+            for lab, x in (("credential part of session B + key-exchange part of session A", B_[:cut] + A_[cut:]),
+                           ("masking nonce of B in A", A_[:sz.noe] + B_[sz.noe:sz.noe + 32] + A_[sz.noe + 32:]),
+                           ("server nonce of B in A", A_[:cut] + B_[cut:cut + 32] + A_[cut + 32:])):
+                d = s.de("cresp", x, out="sx")
+                if not d.ok:
+                    continue
+                r2 = s.cmd("clogin_finish", state=c + ".cl", pw=pw, resp="sx", ctx=ctx, id_u=idu[claimed], id_s=ids, out="sxf")
+                ev += 2
+                stats["tampered_deliveries"] = stats.get("tampered_deliveries", 0) + 1
+                if r2.ok:
+                    viol.append({"sig": "C07 client completed on a response spliced from two server sessions",
+                                 "what": "%s world %d (%s, ctx %s): %s accepted by client %s" % (su, wi, mode, proto.short(ctx), lab, c)})
     # ---- server deliveries: every finalization + junk to every server session
     fins = [(k, bytes.fromhex(v)) for k, v in state["fin"].items()]
     nh = sz.nh
